@@ -208,32 +208,39 @@ impl HashTable {
         let mut index = start_index & self.mask;
         let end_index = index;
 
-        // Linear probing to find the file
+        // Linear probing. Several entries may carry the same name with different locales: the
+        // entry of the requested locale wins, else the neutral (0) entry, else the first one.
+        let mut neutral: Option<usize> = None;
+        let mut first: Option<usize> = None;
         loop {
             let entry = &self.entries[index];
 
-            // Check if this is our file
-            if entry.name_1 == name_a && entry.name_2 == name_b {
-                // Check locale (0 = default/any locale)
-                if (locale == 0 || entry.locale == 0 || entry.locale == locale) && entry.is_valid()
-                {
+            if entry.name_1 == name_a && entry.name_2 == name_b && entry.is_valid() {
+                if entry.locale == locale {
                     return Some((index, entry));
+                }
+                if entry.locale == 0 && neutral.is_none() {
+                    neutral = Some(index);
+                }
+                if first.is_none() {
+                    first = Some(index);
                 }
             }
 
-            // If we hit an empty entry that was never used, file doesn't exist
+            // A never-used entry ends the probe chain
             if entry.is_empty() {
-                return None;
+                break;
             }
 
-            // Continue to next entry
             index = (index + 1) & self.mask;
 
-            // If we've wrapped around to where we started, file doesn't exist
+            // Wrapped around to where we started
             if index == end_index {
-                return None;
+                break;
             }
         }
+
+        neutral.or(first).map(|i| (i, &self.entries[i]))
     }
 
     /// Create a new hash table with mutable entries
